@@ -22,10 +22,11 @@ import (
 // environment's default language, then the base language; a translation of another length is not used)
 func (sc *Scenario) localizedArgs(c *CaseDef) []string {
 	var cands []int
-	if sc.ContactLang != 0 {
+	// the contact's language at routing time (a child flow may have changed it in the same sprint)
+	if cl := sc.effLang(); cl != 0 {
 		for _, a := range sc.Allowed {
-			if a == sc.ContactLang {
-				cands = append(cands, sc.ContactLang)
+			if a == cl {
+				cands = append(cands, cl)
 				break
 			}
 		}
